@@ -286,7 +286,9 @@ pub fn suite_hashkey(dir: &str, seed: u64, thorough: bool, st: &mut Stats) {
         // a small pool of hashes with shared prefixes and different lengths (all >= l unless l is large)
         let base: Vec<u8> = (0..72).map(|_| rng.next() as u8).collect();
         let pool: Vec<Vec<u8>> = (0..6).map(|i| {
-            let len = *rng.pick(&[4usize, 8, 20, 64, 72]).max(&l.min(64));
+            // mostly at least as long as the index' hash length; sometimes SHORTER (a hash of an archive with a shorter hash
+            // length offered to this index: a proper prefix of a key must not be taken for the key)
+            let len = if rng.chance(1, 4) { *rng.pick(&[4usize, 5, 8, 12, 20]) } else { *rng.pick(&[4usize, 8, 20, 64, 72]).max(&l.min(64)) };
             let mut h = base[..len].to_vec();
             if i % 2 == 1 { let p = rng.below(len as u64) as usize; h[p] ^= 1 << rng.below(8); }
             h
